@@ -16,6 +16,11 @@ Reading of the source
   unless the raise is the only way out of an else-branch, in which case the branch yields `default_on_raise`;
 * `int(e)` truncates toward zero, `math.ceil`/`np.ceil` and `//` are exact on rationals, `round` is not accepted;
 * float literals are the exact doubles.
+
+Generator LOOPS (a `for x in xs:` state machine that yields values and carries variables between iterations, e.g.
+`access.get_regions` / `join_regions`) are read by the companion module `harness/looptrans.py`; its reading rules
+(yield = append, continue, `is None` tests as a match on an option, numpy vector primitives as the one-line list
+functions of `lean/CnvVerif/Model/PyPrims.lean`) are stated at the top of that file and belong to the trusted base too.
 """
 from __future__ import annotations
 
